@@ -547,6 +547,10 @@ def where_indices(I, st, mask):
         r = VSeq('int', sp.WK(src[0], n, src[1]), sp.WH(src[0], n, src[1]), flavor='array', dtype='int64')
         return r
     pred = (lambda t: t) if mask.ek == 'bool' else (lambda t: t != 0)
+    zs = getattr(mask, 'zerosrc', None)
+    mask = materialize(I, st, mask)
+    if zs is not None:
+        mask.zerosrc = zs
     K = z3.Int(fresh_name('nz.len'))
     W = z3.Array(fresh_name('nz.idx'), z3.IntSort(), z3.IntSort())
     rank = z3.Function(fresh_name('nz.rank'), z3.IntSort(), z3.IntSort())
@@ -1068,3 +1072,83 @@ def ar_ready(I, st, ar):
 @objmethod('AsyncResult', 'get')
 def ar_get(I, st, ar):
     return ar.fields['value']
+
+
+# ----------------------------------------------------------------------------- hashing / bit tricks (C14)
+H32 = z3.Function('xxh32', z3.StringSort(), z3.IntSort())
+BITLEN = z3.Function('bit_length', z3.IntSort(), z3.IntSort())
+
+
+def _h32(v):
+    from . import sym as _sym
+    if isinstance(v, VStr):
+        f = z3.Function('xxh32_' + str(v.t.sort()), v.t.sort(), z3.IntSort())
+        return f(v.t)
+    if isinstance(v, VOpaque) and v.t is not None:
+        f = z3.Function('xxh32_' + str(v.t.sort()), v.t.sort(), z3.IntSort())
+        return f(v.t)
+    raise EngineError(f'xxh32 of {v!r}')
+
+
+@stub('xxhash.xxh32')
+def s_xxh32(I, st, args, kwargs):
+    return VObj('xxh32', {'data': args[0] if args else VNone()})
+
+
+@objmethod('xxh32', 'update')
+def xxh_update(I, st, hasher, data):
+    hasher.fields['data'] = data
+    return VNone()
+
+
+@objmethod('xxh32', 'intdigest')
+def xxh_intdigest(I, st, hasher):
+    """xxh32(...).intdigest(): an uninterpreted deterministic function of the hashed value, in [0, 2^32)."""
+    t = _h32(hasher.fields['data'])
+    I.assume(st, z3.And(t >= 0, t < 2**32))
+    return VInt(t)
+
+
+@stub('bytes')
+def s_bytes(I, st, args, kwargs):
+    return args[0]
+
+
+_FUNCS['isinstance'] = lambda I, st, args, kwargs: VBool(
+    isinstance(args[0], VStr) if isinstance(args[1], VFunc) and args[1].name == 'str' else _bad_isinstance(args))
+
+
+def _bad_isinstance(args):
+    raise EngineError('isinstance against a type other than str')
+
+
+def m_str_encode(I, st, s, *a, **k):
+    return s
+
+
+_METHODS[(VStr, 'encode')] = m_str_encode
+
+
+def m_int_bit_length(I, st, v):
+    t = BITLEN(v.t)
+    I.assume(st, z3.And(t >= 0, z3.Implies(z3.And(v.t >= 0, v.t < 2**13), t <= 13), z3.Implies(v.t == 0, t == 0)))
+    return VInt(t)
+
+
+_METHODS[(VInt, 'bit_length')] = m_int_bit_length
+
+
+@stub('numpy.ceil')
+def s_ceil(I, st, args, kwargs):
+    r = _real(args[0])
+    return VReal(z3.If(z3.ToReal(z3.ToInt(r)) == r, r, z3.ToReal(z3.ToInt(r) + 1)))
+
+
+@stub('numpy.divide')
+def s_npdivide(I, st, args, kwargs):
+    a, b = args
+    if isinstance(a, (VInt, VReal)) and isinstance(b, (VInt, VReal)):
+        # numpy: division by zero gives inf (no exception); modelled by an uninterpreted value `np.inf`
+        bz = _real(b) == 0
+        return VReal(z3.If(bz, z3.Real('np.inf'), _real(a) / _real(b)))
+    raise EngineError('np.divide on arrays')
